@@ -6,7 +6,7 @@ from fractions import Fraction
 
 THEOREMS = ['set_keys_nodup', 'ofNodes_keys_nodup', 'resolve_any_order', 'run_order_independent', 'sorted_totals_order_irrelevant', 'sorted_elements_order_irrelevant']
 LEVEL = 'proof'
-RULE = ('every command on inputs biased towards what map order could expose: >= 3 unresolved foods, tied quantities, tied element values, near-tied amounts (unequal, closer than 1e-9, names running against the amounts), '
+RULE = ('every command on inputs biased towards what map order could expose: >= 3 unresolved foods, tied quantities, tied element values, near-tied amounts (unequal, closer than 1e-9, names running against the amounts), totals on a half-cent boundary built from non-dyadic terms in >= 3 categories, '
         'recipe chains around the depth limit; each invocation repeated R times in-process (thorough: also as separate processes); '
         'non-trivial = >= 3 entries at a ranged map or >= 2 tied sort keys; distinct by input hash')
 ASSUMPTIONS = ["Go's actual map randomisation is sampled by repetition; the theorem covers every visiting order of the model"]
@@ -57,6 +57,28 @@ def gen(g, count, reps):
             book = [(n, [(i, q) for i, q in ings if i != b'calories'] + [(b'calories', Qty(dec_str(kcal[n]), kcal[n], False))]) for n, ings in book]
             exact = False
             g.r.random()
+        if r.random() < 0.2:
+            # half-cent boundary: >= 3 top-level categories whose contributions to `calories` add up to exactly x.xx5, from
+            # non-dyadic terms, so that the printed total depends on the order in which floating point adds them
+            from ..gen import dec_str
+            import datetime
+            k = r.randint(3, 6)
+            foods = []
+            while len(foods) < k:
+                nm = (g.word(3, 6, 0) + '/' + g.word(3, 6, 0)).encode()
+                if nm.split(b'/')[0] not in [f.split(b'/')[0] for f in foods]:
+                    foods.append(nm)
+            vals = [Fraction(r.randint(100, 3000), 100) for _ in foods]
+            qs = [Fraction(r.choice([1, 2, 3, 5, 7, 25, 15]), r.choice([10, 10, 20, 4])) for _ in foods]
+            partial = sum(v * q for v, q in zip(vals[:-1], qs[:-1]))
+            target = Fraction(int(partial * 100) + r.randint(1, 300), 100) + Fraction(5, 1000)
+            qs[-1] = Fraction(1)
+            vals[-1] = target - partial
+            book = [(f, [(b'calories', Qty(dec_str(v), v, False)), (b'fat', Qty(b'1.5', Fraction(3, 2)))]) for f, v in zip(foods, vals)]
+            order = list(range(k))
+            r.shuffle(order)
+            log = [(datetime.date(2021, 1, 24), [(foods[i], Qty(dec_str(qs[i]), qs[i], False)) for i in order], [])]
+            exact = False
         files = base_files(g, book, log)
         n = r.choice([None, None, spec.max_height(spec.book_map(book)), spec.max_height(spec.book_map(book)) + 1])
         for path, args, s in CMDS:
